@@ -30,6 +30,7 @@ func init() {
 			ruleC20P5(r, cut)
 			ruleC01R2(r, cut) // registered under id R2: every cut, whatever triggered it, resets the size the policy is asked about
 			ruleC20P7(r)
+			ruleOptionSetters(r, "P8", "upstream_options.go")
 			r.borrow("C01", func() { ruleC01R8(r) }) // the send buffer owns its slices (a snapshot of buffered points must not change under the caller)
 		},
 	})
